@@ -33,7 +33,7 @@ ASSUMPTIONS = [
 ]
 
 HORIZON = 200.0
-LAST_ELEMENT = {"S1": ("b", 2), "S2": ("c", 2), "S5b": ("d", 2), "S3": ("c", 4), "SL": ("b", 1)}
+LAST_ELEMENT = {"SO": ("c", 1), "S1": ("b", 2), "S2": ("c", 2), "S5b": ("d", 2), "S3": ("c", 4), "SL": ("b", 1)}
 
 
 def last_element_done(sname, log, ft):
@@ -63,6 +63,17 @@ def shape(name, op_for):
         a = loadgen.make_task("a", "a", clients=1, iterations=3, completes_parent=True, op_params=op_for("a") or None)
         b = loadgen.make_task("b", "b", clients=1, time_period=100_000, warmup_time_period=0, op_params=op_for("b") or None)
         return [P([a, b]), T("c", 2, it=2, **op_for("c"))], (["localhost"], 2)
+    if name == "SO":
+        # two tasks of one parallel element share ONE operation; the first tolerates non-fatal request errors, the second does not
+        from esrally.track import track
+
+        e = loadgen.setup()
+        p = {"task-key": "s"}
+        p.update(op_for("s"))
+        op = track.Operation("shared-op", loadgen.OP_TYPE, params=p, param_source=loadgen.SOURCE)
+        lenient = track.Task("lenient", op, clients=1, iterations=3, params={"ignore-response-error-level": "non-fatal"})
+        strict = track.Task("strict", op, clients=1, iterations=3)
+        return [P([lenient, strict]), T("c", 1, it=1, **op_for("c"))], (["localhost"], 1)
     if name == "SL":
         return [T("a", 1, it=5, **op_for("a")), T("b", 1, it=1, **op_for("b"))], (["localhost"], 1)
     if name == "S2":
@@ -70,9 +81,9 @@ def shape(name, op_for):
     return [P([T("a", 1, it=2, **op_for("a")), T("b", 1, it=2, **op_for("b")), T("c", 1, it=1, **op_for("c"))], clients=2), T("d", 2, it=1, **op_for("d"))], (["localhost"], 1)
 
 
-LAST = {"S1": ("b", 0, 1), "S2": ("c", 1, 0), "S5b": ("d", 1, 0), "S3": ("c", 1, 1), "SL": ("b", 0, 0)}
-MID = {"S1": ("a", 1, 1), "S2": ("b", 0, 1), "S5b": ("c", 0, 0), "S3": ("b", 0, 1), "SL": ("a", 0, 2)}
-FIRST = {"S1": ("a", 0, 0), "S2": ("a", 0, 0), "S5b": ("a", 0, 0), "S3": ("b", 0, 0), "SL": ("a", 0, 0)}
+LAST = {"SO": ("s", 0, 2), "S1": ("b", 0, 1), "S2": ("c", 1, 0), "S5b": ("d", 1, 0), "S3": ("c", 1, 1), "SL": ("b", 0, 0)}
+MID = {"SO": ("s", 0, 1), "S1": ("a", 1, 1), "S2": ("b", 0, 1), "S5b": ("c", 0, 0), "S3": ("b", 0, 1), "SL": ("a", 0, 2)}
+FIRST = {"SO": ("s", 0, 0), "S1": ("a", 1, 1) if False else ("a", 0, 0), "S2": ("a", 0, 0), "S5b": ("a", 0, 0), "S3": ("b", 0, 0), "SL": ("a", 0, 0)}
 
 
 def fault_specs(tier):
@@ -107,6 +118,9 @@ def fault_specs(tier):
     for n in range(0, 4):
         out.append(("S1", "rc-store-raises@rc", n))
     out.append(("S3", "api-abort@rc", "mid"))
+    # on-error=abort with a task that tolerates non-fatal errors next to one that does not (same operation, same worker)
+    for where in ("first", "mid", "last"):
+        out.append(("SO", "unsuccessful-abort", where))
     out.append(("SL", "store-raises-late-teardown@rc", 2))
     out.append(("S1", "cancel-late-teardown@rc", 0))
     for n in (0, 2, 5):
